@@ -3,9 +3,12 @@
    script whose headers are the ones the complete file declares.  Shared by MC_Prefix and MC_Corrupt. *)
 EXTENDS MCFile
 
-EncOf(k) == CASE k = 1 -> <<32, TRUE>> [] k = 2 -> <<32, FALSE>> [] k = 3 -> <<64, TRUE>> [] k = 4 -> <<64, FALSE>>
+\* k in 1..12: encoding ((k-1) % 4) + 1 of variant (k-1) \div 4  (0 plain, 1 extended section numbering,
+\* 2 PT_DYNAMIC designating only the first entry of .dynamic)
+EncOf(k) == LET e == ((k - 1) % 4) + 1 IN CASE e = 1 -> <<32, TRUE>> [] e = 2 -> <<32, FALSE>> [] e = 3 -> <<64, TRUE>> [] e = 4 -> <<64, FALSE>>
+VariantOf(k) == (k - 1) \div 4
 
-Template(class, little) ==
+Template(class, little, variant) ==
     LET symsz == CSize("sym", class) dynsz == CSize("dyn", class)
         dynstr == <<0, 97, 98, 0, 99, 0>>
         sym0 == Enc("sym", class, little, [st_name |-> W4(0), st_value |-> W8(0), st_size |-> W8(0), st_info |-> <<0>>, st_other |-> <<0>>, st_shndx |-> W2(0)])
@@ -21,15 +24,16 @@ Template(class, little) ==
                    [Sec(<<46, 100>>, 6, dyn0 \o dyn1) EXCEPT !.entsize = dynsz, !.link = 2],                  \* ".d"
                    [Sec(<<46, 110>>, 7, note) EXCEPT !.align = 4],                           \* ".n"
                    Sec(<<46, 116>>, 1, <<144, 145, 146, 147, 148>>) >>                      \* ".t"
-        segs == << [type |-> 2, flags |-> 6, sec |-> 4, off |-> 0, filesz |-> 0, memsz |-> 0, align |-> 8],
+        segs == << [type |-> 2, flags |-> 6, sec |-> 4, off |-> 0, filesz |-> 0, memsz |-> 0, align |-> 8,
+                    part |-> IF variant = 2 THEN dynsz ELSE 0],
                    [type |-> 4, flags |-> 4, sec |-> 5, off |-> 0, filesz |-> 0, memsz |-> 0, align |-> 4] >>
-    IN BuildObj(class, little, secs, segs, [DefaultOpts EXCEPT !.shstrndx = 1])
+    IN BuildObj(class, little, secs, segs, [DefaultOpts EXCEPT !.shstrndx = 1, !.shnum_ext = (variant = 1)])
 
 \* constant-level tables (TLC evaluates them once): the complete files, their handles, the query script with
 \* headers as the complete file declares them, and the complete file's answers
-FullF == [k \in 1..4 |-> Template(EncOf(k)[1], EncOf(k)[2])]
-EbF == [k \in 1..4 |-> Open(F(FullF[k]), "Any")]
-QsF == [k \in 1..4 |->
+FullF == [k \in 1..12 |-> Template(EncOf(k)[1], EncOf(k)[2], VariantOf(k))]
+EbF == [k \in 1..12 |-> Open(F(FullF[k]), "Any")]
+QsF == [k \in 1..12 |->
          LET ff == F(FullF[k]) ebF == EbF[k] IN
          [i \in 1..6 |-> [name |-> "section_data", shdr |-> ShdrAt(ff, ebF, i)]] \o
          << [name |-> "section_data_as_strtab", shdr |-> ShdrAt(ff, ebF, 2)],
